@@ -958,7 +958,7 @@ fn valid_inst(g: &mut Gn, k: usize, now: u64) -> Inst {
     let base = now.max(G);
     let start = base + *rng.pick(&[1u64, 2, SEC, HOUR]);
     let end = start + *rng.pick(&[0u64, 1, 2, 10 * SEC, HOUR]);
-    let limit = if is_list(k) { *rng.pick(&[1u64, 2, 3, 5, 5, 10, 10, 50, 999, 1000, 1001, 1999, 2000, 2001]) } else { 0 };
+    let limit = if is_list(k) { *rng.pick(&[1u64, 2, 3, 5, 5, 10, 10, 10, 20, 50, 50, 999, 1000, 1001, 1999, 2000, 2001]) } else { 0 };
     let mut i = Inst {
         v: k,
         sender: ADMIN,
@@ -1019,6 +1019,11 @@ fn valid_inst(g: &mut Gn, k: usize, now: u64) -> Inst {
         }
     } else if is_list(k) {
         i.members = cap(rand_members(rng, 5), limit);
+        if let Some(w) = i.whale {
+            for m in i.members.iter_mut() {
+                m.1 = m.1.min(w);
+            }
+        }
     }
     if k == 6 {
         i.members = rand_members(rng, 5);
@@ -1265,6 +1270,11 @@ fn step(ses: &mut Session, sut: &mut S, k: usize, line: &str, detail: &str) -> b
     let op = line.split_whitespace().next().unwrap_or("?").to_string();
     let okk = out.starts_with("ok");
     ses.mark(format!("k{k}/{op}/{}/{detail}", if okk { "ok" } else { "err" }));
+    if !detail.is_empty() && op != "inst" {
+        ses.count(&format!("x:{op}:{}:{detail}", if okk { "ok" } else { "err" }));
+    } else if op == "inst" {
+        ses.count(&format!("x:inst:k{k}:{}:{detail}", if okk { "ok" } else { "err" }));
+    }
     okk
 }
 
